@@ -79,6 +79,8 @@ pub fn render(sc: &Value) -> Rendered {
         r
     };
 
+    // what the client makes of a declared coding: a build without the compression feature hands the octets through
+    let client_coding = if cfg!(feature = "min") { "identity" } else { coding };
     let mut head: Vec<u8> = Vec::new();
     let version = if gs(sc, "version").is_empty() { "HTTP/1.1" } else { gs(sc, "version") };
     let reason = gso(sc, "reason").unwrap_or("OK");
@@ -353,7 +355,7 @@ pub fn render(sc: &Value) -> Rendered {
             0
         }
     };
-    let mut spec_fault = if kind == "chunked" && !gs(&body, "lf").is_empty() && coding == "identity" { "lenient".to_string() } else { "none".to_string() };
+    let mut spec_fault = if kind == "chunked" && !gs(&body, "lf").is_empty() && client_coding == "identity" { "lenient".to_string() } else { "none".to_string() };
     match fkind.as_str() {
         "cut" => {
             fault_at = at(&fault_v).min(wire.len());
@@ -378,6 +380,9 @@ pub fn render(sc: &Value) -> Rendered {
             }
             spec_fault = fkind.clone();
         }
+        "bad" if gs(&fault_v, "what") == "trailer" && client_coding == "identity" => {
+            // (nothing is decoded: a damaged trailer of the compressed stream is just payload)
+        }
         "bad" if gs(&fault_v, "what") == "trailer" => {
             // damaged integrity trailer of the compressed stream (the octets were flipped above)
             fault_at = wire.len().saturating_sub(1);
@@ -396,7 +401,7 @@ pub fn render(sc: &Value) -> Rendered {
     // truth: payload octets that are really on the wire (decoded payload for coded bodies)
     let (truth, payload_len, framing) = if none_framing {
         (Vec::new(), 0usize, "none".to_string())
-    } else if coding != "identity" {
+    } else if client_coding != "identity" {
         let complete = wire.len() >= frame_end && spec_fault != "bad";
         let _ = complete;
         (payload_bytes.clone(), payload_bytes.len(), kind.to_string())
@@ -410,12 +415,12 @@ pub fn render(sc: &Value) -> Rendered {
     if framing == "close" {
         // the frame is whatever the peer sent before closing
         frame_end_spec = wire.len();
-        if coding == "identity" {
+        if client_coding == "identity" {
             payload_len = truth.len();
         }
     }
     let mut truth = truth;
-    if framing == "length" && coding == "identity" {
+    if framing == "length" && client_coding == "identity" {
         if let Some(d) = guo(&body, "declared") {
             // Content-Length says d; the peer sends raw.len() octets (fewer: the frame is cut; more: garbage follows)
             payload_len = d;
@@ -447,7 +452,7 @@ pub fn render(sc: &Value) -> Rendered {
             }
         }
     }
-    let (cw, cd) = if coding == "identity" && framing == "chunked" { (cw, cd) } else { (vec![], vec![]) };
+    let (cw, cd) = if client_coding == "identity" && framing == "chunked" { (cw, cd) } else { (vec![], vec![]) };
     let expect = sc.get("expect").cloned().unwrap_or(Value::Null);
     let script = json!({
         "framing": gso(&expect, "framing").unwrap_or(&framing),
@@ -461,10 +466,11 @@ pub fn render(sc: &Value) -> Rendered {
         "faultAt": fault_at,
         "status": status,
         "reject": gb(&expect, "reject"),
-        "g19": coding == "identity" && sc.get("g19").and_then(|x| x.as_bool()).unwrap_or(true),
+        "g19": client_coding == "identity" && sc.get("g19").and_then(|x| x.as_bool()).unwrap_or(true),
         "textLen": 0,
         "method": method,
-        "coding": coding,
+        "coding": client_coding,
+        "compressFeature": !cfg!(feature = "min"),
         "clv": clv, "te": tet, "ce": cet,
         "codedEnd": if kind == "chunked" { data_pos.last().map(|p| p + 1).unwrap_or(head_end) } else { head_end + raw.len() },
         "nocheck": gb(sc, "nocheck") || sc.get("raw_head_hex").is_some(),
@@ -505,7 +511,9 @@ pub fn err_kind(e: &attohttpc::Error) -> String {
         K::Http(_) => "Http".into(),
         K::TooManyRedirections => "TooManyRedirections".into(),
         K::StatusCode(_) => "StatusCode".into(),
+        #[cfg(not(feature = "min"))]
         K::Json(_) => "Json".into(),
+        #[cfg(not(feature = "min"))]
         K::Tls(_) => "Tls".into(),
         K::InvalidBaseUrl => "InvalidBaseUrl".into(),
         K::InvalidUrlHost => "InvalidUrlHost".into(),
@@ -528,6 +536,7 @@ fn method_of(m: &str) -> attohttpc::Method {
     attohttpc::Method::from_bytes(m.as_bytes()).unwrap_or(attohttpc::Method::GET)
 }
 
+#[cfg(not(feature = "min"))]
 pub fn charset_by_label(label: &str) -> Option<attohttpc::Charset> {
     encoding_rs::Encoding::for_label(label.as_bytes())
 }
@@ -590,6 +599,7 @@ pub fn run(sc: &Value) -> Vec<String> {
     let emit = |v: Value| world.lock().unwrap().emit(v);
     let pulled = || world.lock().unwrap().conns[0].pulled;
     let mut dead = false;
+    let mut op: String;
 
     loop {
         let step = { world.lock().unwrap().sched.pop_front() };
@@ -604,7 +614,8 @@ pub fn run(sc: &Value) -> Vec<String> {
             Step::Close => {
                 world.lock().unwrap().close(0);
             }
-            Step::Call(op, n) => match op.as_str() {
+            // (a build without compression hands coded bodies through as octets: the text helpers are not applied to them)
+            Step::Call(op0, n) => match { op = if cfg!(feature = "min") && !gs(sc, "coding").is_empty() && gs(sc, "coding") != "identity" && op0.starts_with("text") { "bytes".to_string() } else { op0 }; op.as_str() } {
                 "send" => {
                     emit(json!({"ev":"call","op":"send","buf":0}));
                     let mut b = attohttpc::RequestBuilder::new(method_of(&method), url)
@@ -612,9 +623,11 @@ pub fn run(sc: &Value) -> Vec<String> {
                     if let Some(mh) = guo(sc, "max_headers") {
                         b = b.max_headers(mh);
                     }
+                    #[cfg(not(feature = "min"))]
                     if sc.get("allow_compression").and_then(|x| x.as_bool()) == Some(false) {
                         b = b.allow_compression(false);
                     }
+                    #[cfg(not(feature = "min"))]
                     if let Some(l) = gso(sc, "default_charset") {
                         b = b.default_charset(charset_by_label(l));
                     }
@@ -739,10 +752,14 @@ pub fn run(sc: &Value) -> Vec<String> {
                             }
                             "text_utf8_raw" | "text_utf8" => rp.text_utf8().map(|s| s.into_bytes()).map_err(|e| err_kind(&e)),
                             "text" => rp.text().map(|s| s.into_bytes()).map_err(|e| err_kind(&e)),
+                            #[cfg(not(feature = "min"))]
                             "text_with" => rp
                                 .text_with(charset_by_label(&label).unwrap_or(encoding_rs::UTF_8))
                                 .map(|s| s.into_bytes())
                                 .map_err(|e| err_kind(&e)),
+                            #[cfg(feature = "min")]
+                            _ => Err("op-not-built".into()),
+                            #[cfg(not(feature = "min"))]
                             _ => {
                                 // streaming text reader with the scenario's read sizes; after an error it reads on
                                 // (`extra` more times): what was handed out must stay a prefix
